@@ -97,7 +97,27 @@ def run(harnesses, timeout_each=1500):
         groups = {}
         for h in harnesses:
             groups.setdefault((h.get('tests', False), h.get('features', '')), []).append(h)
-        for (is_tests, feats), hs in groups.items():
+        # which copied test file defines which harness (a compile error in one test file must not take the others down)
+        file_of = {}
+        for f in reg['files']:
+            if f['mode'] != 'append':
+                txt = open(os.path.join(KANI_DIR, f['harness_file'])).read()
+                for h in harnesses:
+                    if re.search(r'\bfn\s+%s\s*\(' % re.escape(h['name']), txt):
+                        file_of[h['name']] = f['target']
+        work = list(groups.items())
+        retried = set()
+        while work:
+            (is_tests, feats), hs = work.pop(0)
+            only_file = None
+            if isinstance(is_tests, tuple):          # retry of one test file: (True, target)
+                is_tests, only_file = is_tests
+            hidden = []
+            if only_file:
+                for f in reg['files']:
+                    if f['mode'] != 'append' and f['target'] != only_file and os.path.exists(os.path.join(scratch, f['target'])):
+                        os.rename(os.path.join(scratch, f['target']), os.path.join(scratch, f['target'] + '.hidden'))
+                        hidden.append(f['target'])
             cmd = ['cargo', 'kani', '--output-format', 'terse']
             if len(hs) > 1:
                 cmd += ['-j', str(min(len(hs), int(os.environ.get('GV_KANI_JOBS', '4'))))]
@@ -159,6 +179,17 @@ def run(harnesses, timeout_each=1500):
                     seen[h['name']]['counterexample'] = playback(scratch, env, h, feats, is_tests)
                 except Exception as e:   # never let the replay step change the verdict
                     seen[h['name']]['counterexample'] = {'error': repr(e)}
+            for t in hidden:
+                os.rename(os.path.join(scratch, t + '.hidden'), os.path.join(scratch, t))
+            # the build failed for the whole invocation: retry the test files one by one, so that a harness file that no longer
+            # compiles against the modified library (undecided) does not hide the verdict of the others
+            built = bool(seen) or bool(re.search(r'Checking harness', out))
+            files_here = sorted(set(file_of.get(h['name']) for h in hs if file_of.get(h['name'])))
+            if is_tests and not built and only_file is None and len(files_here) > 1 and (feats, tuple(files_here)) not in retried:
+                retried.add((feats, tuple(files_here)))
+                for tf in files_here:
+                    work.append((((True, tf), feats), [h for h in hs if file_of.get(h['name']) == tf]))
+                continue
             for h in hs:
                 r = seen.get(h['name'])
                 if r is None:
